@@ -59,6 +59,11 @@ def c10(pid, tier, replay):
             for k, plain in enumerate((True, False, False) if i % 4 == 0 else (False,)):
                 y, rd = genyacc.render(d, rng, plain=plain)
                 insts.append(dict(id="y%d-%d" % (i, k), y=y, kind=d["kind"], doc=rd))
+            if i % 3 == 1:
+                # the same document behind a %grmtools section naming its kind: the text form that the
+                # other public entry point (from_str) reads - both entry points are observed
+                y, rd = genyacc.render(d, rng, header=True)
+                insts.append(dict(id="y%d-h" % i, y=y, kind=d["kind"], doc=rd, from_str=True))
     job = os.path.join(res.wd, "job.json")
     trace = os.path.join(res.wd, "trace.ndjson")
     with open(job, "w") as f:
